@@ -23,7 +23,9 @@ RULE = (
     "identical module and object names; (2) if the generated sources (hashes normalised) differ, or options/flags/scalar type "
     "differ, the module names differ; (3) all object names of a module are valid C identifiers, pairwise distinct and defined in "
     "the generated code. Non-trivial = a mutation pair whose sources differ, or a same-request pair with a non-empty history or "
-    "another hash seed; distinct by pair hash."
+    "another hash seed; distinct by pair hash. Sweep family: one request plus every applicable single mutation (3 literals, 2 operators, "
+    "6 options, 3 scalar types, compiler flags added/reordered/dropped, debug, 3 point perturbations, point count/shape/order, metadata, degree, "
+    "subdomain id, object order) named in one child; all pairs of the sweep are compared."
 )
 P_FORMS = {"measures": ["dx", "ds", "dS"], "ids": "simple", "max_integrals": 2, "depth": 2, "maxdeg": 2, "max_qdeg": 4}
 IDENT = re.compile(r"^[A-Za-z_]\w*$")
@@ -75,7 +77,7 @@ def requests(draw):
         targets = [draw(strategies.form_specs(P_FORMS)) for _ in range(draw(st.integers(1, 2)))]
     else:
         targets = [draw(strategies.expr_specs()) for _ in range(draw(st.integers(1, 2)))]
-        if draw(st.integers(0, 3)) == 0:
+        if strategies.prob(draw, 0.15):
             # a large point set (numpy summarises the repr of arrays with > 1000 entries)
             t = targets[0]
             if not t.get("facet"):
@@ -85,7 +87,7 @@ def requests(draw):
                 pts = [list(np.round(base * (0.2 + 0.6 * k / n), 6)) for k in range(n)]
                 t["points"] = [[float(v) for v in p] for p in pts]
     opts = draw(st.sampled_from([{}, {}, {"scalar_type": "float32"}, {"scalar_type": "complex128"}, {"table_rtol": 1e-4}, {"sum_factorization": True}]))
-    jit = {"cflags": draw(st.sampled_from([[], ["-O1"], ["-O2", "-g0"]])), "debug": draw(st.booleans())}
+    jit = {"cflags": draw(st.sampled_from([[], ["-O1"], ["-O2", "-g0"], ["-O0", "-O2"], ["-O1", "-g0", "-fno-math-errno"]])), "debug": draw(st.booleans())}
     return {"targets": [strategies.strip_meta(t) for t in targets], "options": opts, "jit": jit}
 
 
@@ -131,7 +133,7 @@ def cases(draw):
             else:
                 desc = "mutate:none"
         elif m == "option":
-            key, val = draw(st.sampled_from([("table_atol", 1e-7), ("epsilon", 1e-10), ("verbosity", 20), ("table_rtol", 1e-5)]))
+            key, val = draw(st.sampled_from([("table_atol", 1e-7), ("epsilon", 1e-10), ("table_rtol", 1e-5)]))
             r2["options"] = dict(r2["options"], **{key: val})
         elif m == "scalar":
             cur = r["options"].get("scalar_type", "float64")
@@ -180,6 +182,149 @@ def cases(draw):
         elif m == "order":
             r2["targets"] = r2["targets"][::-1]
     return {"r": r, "r2": r2, "variant": variant, "desc": desc}
+
+
+@st.composite
+def sweeps(draw):
+    """One request and *every* applicable single mutation of it (parameters drawn), all named in one child process."""
+    r = draw(requests())
+    muts = []
+
+    def add(desc, fn):
+        r2 = copy.deepcopy(r)
+        if fn(r2) is not False:
+            muts.append({"desc": desc, "r": r2})
+
+    t0 = r["targets"][0]
+    is_expr = t0.get("kind") == "expr"
+    lit_paths = _lits(t0)
+    for p in (draw(st.permutations(lit_paths))[:3] if lit_paths else []):
+        delta = draw(st.sampled_from([1, 0.5, 1e-3, 1e-9, 1e-13]))
+
+        def f(r2, p=p, delta=delta):
+            node = _get(r2["targets"][0], p)
+            node[1] = node[1] + delta if isinstance(node[1], float) else node[1] + 1
+
+        add("literal", f)
+    op_paths = _ops(t0, set(SWAPS))
+    for p in (draw(st.permutations(op_paths))[:2] if op_paths else []):
+        def f(r2, p=p):
+            node = _get(r2["targets"][0], p)
+            node[0] = SWAPS[node[0]]
+
+        add("operator", f)
+    for key, val in [("table_atol", 1e-7), ("epsilon", 1e-10), ("table_rtol", 1e-5), ("part", "diagonal"), ("sum_factorization", True)]:
+        if r["options"].get(key) != val:
+            add("option:" + key, lambda r2, key=key, val=val: r2.__setitem__("options", dict(r2["options"], **{key: val})))
+    cur = r["options"].get("scalar_type", "float64")
+    for s_ in ("float32", "float64", "complex64", "complex128"):
+        if s_ != cur:
+            add("scalar", lambda r2, s_=s_: r2.__setitem__("options", dict(r2["options"], scalar_type=s_)))
+    add("cflags-extra", lambda r2: r2.__setitem__("jit", dict(r2["jit"], cflags=r2["jit"]["cflags"] + ["-ffast-math"])))
+    if len(r["jit"]["cflags"]) >= 2:
+        add("cflags-reorder", lambda r2: r2.__setitem__("jit", dict(r2["jit"], cflags=r2["jit"]["cflags"][::-1])))
+        add("cflags-drop", lambda r2: r2.__setitem__("jit", dict(r2["jit"], cflags=r2["jit"]["cflags"][:-1])))
+    add("debug", lambda r2: r2.__setitem__("jit", dict(r2["jit"], debug=not r2["jit"]["debug"])))
+    if is_expr:
+        pts = t0["points"]
+        for _ in range(3):
+            i = draw(st.integers(0, len(pts) - 1)) if len(pts) <= 100 else draw(st.sampled_from([0, len(pts) // 2, len(pts) - 1]))
+            j = draw(st.integers(0, len(pts[i]) - 1))
+            d = draw(st.sampled_from([1e-3, 1e-6, 1e-9, 1e-10, 1e-12, 1e-13]))
+
+            def f(r2, i=i, j=j, d=d):
+                r2["targets"][0]["points"][i][j] += d
+
+            add("points", f)
+
+        def drop(r2):
+            t = r2["targets"][0]
+            t["points"] = t["points"][:-1] if len(t["points"]) >= 2 else t["points"] + [[min(v + 0.01, 0.3) for v in t["points"][0]]]
+
+        add("points-shape", drop)
+
+        def reshape(r2):
+            t = r2["targets"][0]
+            tdim = specs.TDIM[t["cell"]]
+            flat = [v for p in t["points"] for v in p]
+            if tdim >= 2 and not t.get("facet") and len(flat) % (tdim - 1) == 0:
+                t["points"] = [flat[i:i + tdim - 1] for i in range(0, len(flat), tdim - 1)]
+                t["facet"] = True
+            elif tdim >= 2 and t.get("facet") and len(flat) % tdim == 0:
+                t["points"] = [flat[i:i + tdim] for i in range(0, len(flat), tdim)]
+                t["facet"] = False
+            else:
+                return False
+
+        add("points-reshape", reshape)
+
+        def swap_points(r2):
+            t = r2["targets"][0]
+            if len(t["points"]) < 2 or t["points"][0] == t["points"][-1]:
+                return False
+            t["points"] = t["points"][::-1]
+
+        add("points-order", swap_points)
+    else:
+        for k, I in enumerate(t0["integrals"][:2]):
+            add("metadata", lambda r2, k=k: r2["targets"][0]["integrals"][k].__setitem__(
+                "md", dict(r2["targets"][0]["integrals"][k]["md"], quadrature_degree=int(r2["targets"][0]["integrals"][k]["md"].get("quadrature_degree", 2)) + 1)))
+
+        def degree(r2):
+            for E in r2["targets"][0]["elements"]:
+                if E[0] == "el" and E[1] == "P" and E[2] in (1, 2):
+                    E[2] = E[2] + 1
+                    return None
+            return False
+
+        add("degree", degree)
+
+        def sid(r2):
+            I = r2["targets"][0]["integrals"][0]
+            I["id"] = 9 if I.get("id") != 9 else 4
+
+        add("subdomain-id", sid)
+    if len(r["targets"]) == 2 and spec_hash(r["targets"][0]) != spec_hash(r["targets"][1]):
+        add("order", lambda r2: r2.__setitem__("targets", r2["targets"][::-1]))
+    return {"r": r, "mutants": muts}
+
+
+def evaluate_sweep(case, wd):
+    h = spec_hash(case)
+    reqs = [case["r"]] + [m["r"] for m in case["mutants"]]
+    descs = ["original"] + [m["desc"] for m in case["mutants"]]
+    classes = ["sweep", f"kind:{case['r']['targets'][0].get('kind', 'form')}"]
+    job = {"mode": "names-sweep", "requests": reqs}
+    out, err = procs.run_job("vf.child_codegen", job, wd, f"{h}_sw", hashseed=0, timeout=1200)
+    if out is None:
+        return Outcome("harness-error", case_id=h, classes=classes, what=err)
+    res = out["results"]
+    if "error" in res[0]:
+        return Outcome("rejected", case_id=h, classes=classes + ["rejected"], what=res[0]["error"])
+    npairs = nt = 0
+    for a in range(len(reqs)):
+        if "error" in res[a]:
+            classes.append("mutant-rejected:" + descs[a].split(":")[0])
+            continue
+        for b in range(a + 1, len(reqs)):
+            if "error" in res[b]:
+                continue
+            differs = res[a]["source_digest"] != res[b]["source_digest"]
+            must = differs or reqs[a]["options"] != reqs[b]["options"] or reqs[a]["jit"] != reqs[b]["jit"]
+            npairs += 1
+            if not must:
+                classes.append("sources-equal:" + descs[b].split(":")[0])
+                continue
+            nt += 1
+            if a == 0:
+                classes.append("mut:" + descs[b].split(":")[0])
+            if res[a]["module_name"] == res[b]["module_name"]:
+                pair = {"r": reqs[a], "r2": reqs[b], "variant": {"steps": [], "hashseed": 0, "family": "first"}, "desc": f"mutate:{descs[a]}|{descs[b]}"}
+                return Outcome("violation", case_id=h, classes=classes, key=f"{PROP}:collision:{descs[a]}|{descs[b]}:{h}", bucket=f"{PROP}:collision:{descs[a].split(':')[0]}|{descs[b].split(':')[0]}",
+                               what=f"two requests that differ ({descs[a]} vs {descs[b]}; sources {'differ' if differs else 'equal, options/flags differ'}) share the module name "
+                                    f"{res[a]['module_name']}", replay={"case": pair}, sample={"desc": pair["desc"]})
+    classes.append(f"pairs:{min(npairs // 25 * 25, 200)}+")
+    return Outcome("ok", case_id=h, nontrivial=nt > 0, classes=classes, sample={"descs": descs, "pairs_compared": npairs, "pairs_that_must_differ": nt})
 
 
 def normalise(code):
@@ -251,12 +396,13 @@ def shard(shard, nshards, n, seed):
     res = ShardResult()
     with scratch(f"vf-c13-{shard}-") as wd:
         drive(cases(), lambda c: evaluate(c, wd), n, (PROP, seed, shard), res, shrink_calls=15, max_buckets=3, shrink_seconds=60)
+        drive(sweeps(), lambda c: evaluate_sweep(c, wd), max(2, n // 2), (PROP, seed, shard, "sweep"), res, shrink_calls=6, max_buckets=3, shrink_seconds=60)
     return res
 
 
 def run(tier: str) -> int:
     run_ = Run(PROP, tier, "exploration", RULE)
-    n = 8 if tier == "quick" else 150
+    n = 6 if tier == "quick" else 150
     for part in run_shards(shard, 16, n=n, seed=verif_seed()):
         run_.merge(part)
     run_.assumptions = [
